@@ -83,7 +83,7 @@ def parseEqCls (items : List Sexp) : List Nat :=
 
 /-- F-C15-4 = F-C16-10 (inference compares an instance under construction by value) is OPEN in /repo: `true`.
 After `fixes/C16_half_built_instance.diff` is applied the lead sets this to `false`. -/
-def halfBuiltOpen : Bool := true
+def halfBuiltOpen : Bool := false
 
 /-- the constructor context of every operation `parseItem` yields for this history item (same length, same order):
 entry `j` of `(ctor o (f x…)…)` runs while the fields of the entries after it are still to come -/
